@@ -16,20 +16,37 @@ pub struct Findings {
 }
 
 impl Findings {
+    /// Reads `known_findings.json` and every `known_findings.d/*.json` next to it.
     pub fn load(path: &Path) -> Findings {
         let mut f = Findings::default();
+        f.load_file(path);
+        if let Some(dir) = path.parent() {
+            if let Ok(rd) = std::fs::read_dir(dir.join("known_findings.d")) {
+                let mut files: Vec<_> = rd.flatten().map(|e| e.path()).collect();
+                files.sort();
+                for p in files {
+                    if p.extension().and_then(|e| e.to_str()) == Some("json") {
+                        f.load_file(&p);
+                    }
+                }
+            }
+        }
+        f
+    }
+
+    fn load_file(&mut self, path: &Path) {
         let Ok(text) = std::fs::read_to_string(path) else {
-            return f;
+            return;
         };
         let Ok(v) = serde_json::from_str::<J>(&text) else {
-            eprintln!("known_findings.json does not parse; treating as empty");
-            return f;
+            eprintln!("{:?} does not parse; ignored", path);
+            return;
         };
         if let Some(list) = v["findings"].as_array() {
             for e in list {
                 if e["status"].as_str() == Some("open") {
                     if let Some(id) = e["id"].as_str() {
-                        f.open.insert(
+                        self.open.insert(
                             id.to_string(),
                             e["title"].as_str().unwrap_or("").to_string(),
                         );
@@ -37,7 +54,6 @@ impl Findings {
                 }
             }
         }
-        f
     }
 
     pub fn is_open(&self, id: &str) -> bool {
